@@ -250,6 +250,9 @@ pub fn check(tier: Tier) -> i32 {
     bases.extend(fn_bases().into_iter().filter(|b| ["fn-min", "fn+global-init", "fn-no-imports", "fn-mixed-imports"].contains(&b.name.as_str())));
     bases.extend(global_bases().into_iter().filter(|b| ["gl-min", "gl+export"].contains(&b.name.as_str())));
     bases.extend(mem_bases().into_iter().filter(|b| b.name == "mem-min"));
+    // a base with names for several functions, locals, labels and globals: the name maps are re-keyed
+    // at encoding
+    bases.extend(crate::props::hist2::c29_bases().into_iter().filter(|b| b.name == "named-all"));
     run.rule = format!(
         "for every history of length <= {} of the function / global / memory alphabets on {} base modules (two of them with structurally identical types, which is where a dedup map built from an unordered map matters) every hash-map iteration of the crate is a choice point (hook: VMap order oracle); all schedules with <= {} non-identity permutations are executed (all n! permutations for maps of <= 4 entries; reversal, rotations and adjacent swaps beyond) and the encoded bytes - and separately the side-effect report rendered order-insensitively - must equal the identity schedule's. Secondary (thorough, sampled and labelled so): the same histories encoded in fresh OS processes of the unhooked build are out of scope of this harness binary and are not run.",
         depth,
@@ -260,9 +263,10 @@ pub fn check(tier: Tier) -> i32 {
     let fa = fn_alphabet(false);
     let ga = global_alphabet();
     let ma = mem_alphabet();
+    let na = crate::props::hist2::c29_alphabet();
     let mut histories: Vec<(usize, Vec<Op>)> = vec![];
     for (bi, base) in bases.iter().enumerate() {
-        let alpha: &(dyn Fn(&Model) -> Vec<Op> + Sync) = if base.name.starts_with("gl") { &ga } else if base.name.starts_with("mem") { &ma } else { &fa };
+        let alpha: &(dyn Fn(&Model) -> Vec<Op> + Sync) = if base.name.starts_with("gl") { &ga } else if base.name.starts_with("mem") { &ma } else if base.name.starts_with("named") { &na } else { &fa };
         let mut frontier: Vec<Vec<Op>> = vec![vec![]];
         for d in 0..=depth {
             let mut next = vec![];
@@ -362,10 +366,10 @@ pub fn check(tier: Tier) -> i32 {
             }
             // all plans of 1 and 2 special-mode injections (two on one construct included)
             for (i, a) in sites.iter().enumerate() {
-                let ia = Inj { at: a.0, mode: a.1, c: 0x7601, drop_first: a.1 == SMode::BlockAlt && matches!(roles[a.0], Role::If), retract: false };
+                let ia = Inj { at: a.0, mode: a.1, c: 0x7601, drop_first: a.1 == SMode::BlockAlt && matches!(roles[a.0], Role::If), retract: false, encode_after: false };
                 plan_cases.push((prog.clone(), vec![ia.clone()]));
                 for b in sites.iter().skip(i + 1) {
-                    let ib = Inj { at: b.0, mode: b.1, c: 0x7602, drop_first: b.1 == SMode::BlockAlt && matches!(roles[b.0], Role::If), retract: false };
+                    let ib = Inj { at: b.0, mode: b.1, c: 0x7602, drop_first: b.1 == SMode::BlockAlt && matches!(roles[b.0], Role::If), retract: false, encode_after: false };
                     plan_cases.push((prog.clone(), vec![ia.clone(), ib]));
                 }
             }
@@ -506,6 +510,7 @@ pub fn replay(case: &serde_json::Value) -> Vec<Mismatch> {
     bases.extend(fn_bases());
     bases.extend(global_bases());
     bases.extend(mem_bases());
+    bases.extend(crate::props::hist2::c29_bases());
     let base = match bases.iter().find(|b| b.name == c.base) {
         Some(b) => b,
         None => return vec![Mismatch::new("replay-unknown-base", c.base)],
